@@ -23,6 +23,7 @@ class Profile:
         self.maxdepth = [2, 2, 3]  # choices
         self.wild = 0.3  # probability that a handler slot is a wildcard handler
         self.wild_dispatch = True
+        self.deep_wild = False  # allow a dispatching wildcard handler with maxdepth 3 (trips the recursion guard)
         self.strpat = 0.2
         self.sync = 0.25
         self.min_handlers = 1
@@ -65,7 +66,7 @@ def handler_prog(draw, p: Profile, nb: int, level: int, maxdepth: int, is_async:
     ops = []
     n = draw(st.integers(0, p.max_ops))
     # a dispatching wildcard handler handles its own descendants: keep that within the documented 2-level recursion guard
-    can_disp = level < maxdepth and (not wildcard or (p.wild_dispatch and maxdepth <= 2))
+    can_disp = level < maxdepth and (not wildcard or (p.wild_dispatch and (maxdepth <= 2 or p.deep_wild)))
     for _ in range(n):
         choices = list(p.ops) if is_async else [o for o in p.ops if o == 'disp']
         if not can_disp:
